@@ -327,11 +327,23 @@ class XMLElementAttribFormatter(SequenceFormatter):
 
     def print_KeyValuePairNode(self, printer: Printer, node: KeyValuePairNode):
         printer.write(' ')
-        node.key.quoted = False
-        self.print(printer, node.key)
-        printer.write('=')
-        node.value.quoted = True
-        self.print(printer, node.value)
+        # Attribute names are printed unquoted and values quoted, but the nodes may belong to a tree that was not built
+        # from XML (or to the tree we are diffing against), so restore their state afterward
+        unset = object()
+        key_quoted = getattr(node.key, 'quoted', unset)
+        value_quoted = getattr(node.value, 'quoted', unset)
+        try:
+            node.key.quoted = False
+            self.print(printer, node.key)
+            printer.write('=')
+            node.value.quoted = True
+            self.print(printer, node.value)
+        finally:
+            for child, was_quoted in ((node.key, key_quoted), (node.value, value_quoted)):
+                if was_quoted is unset:
+                    del child.quoted
+                else:
+                    child.quoted = was_quoted
 
 
 class XMLStringFormatter(StringFormatter):
